@@ -1,7 +1,7 @@
 """Model of the daemon's segment-writer side extracted by PSI: the dispatch loop with its
 handlers inlined (one path per message class x report classification), the FSM tables,
 the constructor state.  Used by C01, C07, C08, C09, C10, C13, C15, C19."""
-from .. import psi, mir
+from .. import psi, mir, arith
 from ..psi import fmt, T
 from . import common
 
@@ -299,10 +299,11 @@ class UpdaterModel:
                 chk.analysed['paths'] += 1
                 if p.kind != 'return':
                     continue
-                inp = None
-                for term, op, val, _ in p.conds:
-                    if term == T('discr', a2) and op == '==':
-                        inp = STATUS[val] if val < 3 else str(val)
+                # the inputs this path is taken for: its atoms on discr(input), directly or behind an `as` cast
+                # (`match chrony as u8 { 0 => .., 1 => .., _ => .. }`), evaluated for each of the three statuses
+                atoms = [(op, val) for term, op, val, _ in p.conds if arith.strip_casts(term) == T('discr', a2)]
+                inps = [STATUS[d] for d in (0, 1, 2)
+                        if atoms and all((d == val) if op == '==' else (d not in val) for op, val in atoms)]
                 v = p.value
                 tgt = None
                 if v[0] == 'ref':
@@ -318,7 +319,7 @@ class UpdaterModel:
                     deleg = True
                 if tgt is None:
                     concrete = False
-                if inp is not None:
+                for inp in inps:
                     rows[inp] = tgt
             if deleg and not rows:
                 chk.saw(b)
